@@ -52,9 +52,11 @@ def usable(b):
     return True
 
 
-def shapes_of(behs):
+def shapes_of(behs, lazy=0):
     seen, out = set(), []
     for b in behs:
+        if b["lazy"] != lazy:
+            continue
         for s in b["steps"]:
             if s["a"] != "Dump":
                 continue
